@@ -56,3 +56,9 @@ Theorem C06_built_graph_order_independent : forall m g, wbuild m = Ok g -> acycl
   forall x, In x (order_used o1 g) -> In x (order_used o2 g) -> is_terminal (n_type (node_of g x)) = false ->
     n_weights (node_of g1 x) = n_weights (node_of g2 x).
 Proof. exact built_order_independent. Qed.
+
+(* the same tie as Properties/C11.v (11): a store that shares a backing array makes the result depend on which of two
+   nodes appends first, i.e. on map iteration order *)
+From Verif Require Import Gen.Sites.
+Theorem C06_no_store_shares_a_list_or_map : aliasing_stores = [] /\ (12 <= length store_sites)%nat.
+Proof. split; [vm_compute; reflexivity|vm_compute; repeat constructor]. Qed.
